@@ -45,3 +45,5 @@ mod pool2;
 mod splice;
 #[cfg(kani)]
 mod stats2;
+#[cfg(kani)]
+mod bvec;
